@@ -24,15 +24,16 @@ default volume back succeeds; output slot `v` lies at the input's plane `src v =
 right-handed: identity shifted to the first kept plane `k₁`; `h = −1` left-handed: mirror image, `k₁` the last
 kept plane), for every row and column; every stored plane `k` is placed in slot `h·(k − k₁)`, i.e. at
 `src⁻¹ k`; the volume spans exactly the kept planes. -/
-theorem seg_volume_roundtrip {g : Geom} (hg : Admissible g) (ks : List Nat) (hks : ks ≠ []) (rows cols : Int)
+theorem seg_volume_roundtrip {g : Geom} (hg : Admissible g) (ks : List Nat) (hks : ks ≠ []) (chans : List Nat)
+    (hu : framesUnique .seg (withChan (storeStack g ks) chans) = true) (rows cols : Int)
     (hr : 1 ≤ rows) (hc : 1 ≤ cols) :
     ∃ k₁ ∈ ks, ∃ k₂ ∈ ks, ∃ out,
-      getVolumeStack .seg (storeStack g ks) rows cols true ({} : Request) = .ok out ∧
+      getVolumeStack .seg (withChan (storeStack g ks) chans) rows cols true ({} : Request) = .ok out ∧
       (∀ k ∈ ks, 0 ≤ handInt g * ((k : Int) - k₁) ∧ handInt g * ((k : Int) - k₁) < out.n) ∧
       out.n = handInt g * ((k₂ : Int) - k₁) + 1 ∧ out.rows = rows ∧ out.cols = cols ∧
       (∀ v r c : Int, out.aff.apply v r c = g.aff.apply ((k₁ : Int) + handInt g * v) r c) ∧
       out.frames = ks.zipIdx.map (fun (p : Nat × Nat) => (p.2, handInt g * ((p.1 : Int) - k₁))) := by
-  obtain ⟨k₁, hk₁, k₂, hk₂, hb, hok, _⟩ := roundtrip_store .seg hg ks hks rows cols
+  obtain ⟨k₁, hk₁, k₂, hk₂, hb, hok, _⟩ := roundtrip_store .seg hg ks hks chans hu rows cols
   have hN : 1 ≤ handInt g * ((k₂ : Int) - k₁) + 1 := by have := (hb k₂ hk₂).1; omega
   have h := hok ({} : Request) 0 _ 0 rows 0 cols (sliceSpec_default _ hN false) (sliceSpec_default rows hr false)
     (sliceSpec_default cols hc false)
@@ -63,12 +64,13 @@ theorem seg_volume_roundtrip {g : Geom} (hg : Admissible g) (ks : List Nat) (hks
 /-- **Every stored plane keeps the physical position the input gave it**, whatever the handedness: frame `i`
 (plane `ks[i]` of the input) is put into a slot of the returned volume whose voxels lie exactly where the
 input volume has the voxels of plane `ks[i]`. -/
-theorem stored_planes_keep_their_positions {g : Geom} (hg : Admissible g) (ks : List Nat) (hks : ks ≠ [])
+theorem stored_planes_keep_their_positions {g : Geom} (hg : Admissible g) (ks : List Nat) (hks : ks ≠ []) (chans : List Nat)
+    (hu : framesUnique .seg (withChan (storeStack g ks) chans) = true)
     (rows cols : Int) (hr : 1 ≤ rows) (hc : 1 ≤ cols) :
-    ∃ out, getVolumeStack .seg (storeStack g ks) rows cols true ({} : Request) = .ok out ∧
+    ∃ out, getVolumeStack .seg (withChan (storeStack g ks) chans) rows cols true ({} : Request) = .ok out ∧
       ∀ i (hi : i < ks.length), ∃ v, (i, v) ∈ out.frames ∧ 0 ≤ v ∧ v < out.n ∧
         ∀ r c : Int, out.aff.apply v r c = g.aff.apply (ks[i] : Int) r c := by
-  obtain ⟨k₁, _, k₂, _, out, hout, hb, _, _, _, happ, hfr⟩ := seg_volume_roundtrip hg ks hks rows cols hr hc
+  obtain ⟨k₁, _, k₂, _, out, hout, hb, _, _, _, happ, hfr⟩ := seg_volume_roundtrip hg ks hks chans hu rows cols hr hc
   refine ⟨out, hout, ?_⟩
   intro i hi
   refine ⟨handInt g * ((ks[i] : Int) - k₁), ?_, (hb _ (List.getElem_mem hi)).1, (hb _ (List.getElem_mem hi)).2, ?_⟩
@@ -86,14 +88,15 @@ theorem stored_planes_keep_their_positions {g : Geom} (hg : Admissible g) (ks : 
 /-- **Right-handed input: same array and affine** (up to the trimmed empty end planes): slot `v` is the input's
 plane `kmin + v`, `kmin` the first kept plane; if plane 0 is kept the affine is the input's affine itself. -/
 theorem right_handed_reads_back_identically {g : Geom} (hg : Admissible g) (hdet : g.det = 1) (ks : List Nat)
-    (hks : ks ≠ []) (rows cols : Int) (hr : 1 ≤ rows) (hc : 1 ≤ cols) :
+    (hks : ks ≠ []) (chans : List Nat)
+    (hu : framesUnique .seg (withChan (storeStack g ks) chans) = true) (rows cols : Int) (hr : 1 ≤ rows) (hc : 1 ≤ cols) :
     ∃ kmin ∈ ks, ∃ kmax ∈ ks, (∀ k ∈ ks, kmin ≤ k ∧ k ≤ kmax) ∧ ∃ out,
-      getVolumeStack .seg (storeStack g ks) rows cols true ({} : Request) = .ok out ∧
+      getVolumeStack .seg (withChan (storeStack g ks) chans) rows cols true ({} : Request) = .ok out ∧
       out.n = (kmax : Int) - kmin + 1 ∧
       (∀ v r c : Int, out.aff.apply v r c = g.aff.apply ((kmin : Int) + v) r c) ∧
       out.frames = ks.zipIdx.map (fun (p : Nat × Nat) => (p.2, (p.1 : Int) - kmin)) ∧
       (kmin = 0 → out.aff = g.aff) := by
-  obtain ⟨k₁, hk₁, k₂, hk₂, out, hout, hb, hn, _, _, happ, hfr⟩ := seg_volume_roundtrip hg ks hks rows cols hr hc
+  obtain ⟨k₁, hk₁, k₂, hk₂, out, hout, hb, hn, _, _, happ, hfr⟩ := seg_volume_roundtrip hg ks hks chans hu rows cols hr hc
   have hh : handInt g = 1 := by unfold handInt; simp [hdet]
   simp only [hh, one_mul] at hb hn happ hfr
   refine ⟨k₁, hk₁, k₂, hk₂, ?_, out, hout, by omega, happ, hfr, ?_⟩
@@ -110,13 +113,14 @@ theorem right_handed_reads_back_identically {g : Geom} (hg : Admissible g) (hdet
 /-- **Left-handed input: the mirror image along the stacking axis**: slot `v` is the input's plane `kmax − v`,
 `kmax` the last kept plane; plane `k` is found in slot `kmax − k`. -/
 theorem left_handed_reads_back_mirrored {g : Geom} (hg : Admissible g) (hdet : g.det = -1) (ks : List Nat)
-    (hks : ks ≠ []) (rows cols : Int) (hr : 1 ≤ rows) (hc : 1 ≤ cols) :
+    (hks : ks ≠ []) (chans : List Nat)
+    (hu : framesUnique .seg (withChan (storeStack g ks) chans) = true) (rows cols : Int) (hr : 1 ≤ rows) (hc : 1 ≤ cols) :
     ∃ kmin ∈ ks, ∃ kmax ∈ ks, (∀ k ∈ ks, kmin ≤ k ∧ k ≤ kmax) ∧ ∃ out,
-      getVolumeStack .seg (storeStack g ks) rows cols true ({} : Request) = .ok out ∧
+      getVolumeStack .seg (withChan (storeStack g ks) chans) rows cols true ({} : Request) = .ok out ∧
       out.n = (kmax : Int) - kmin + 1 ∧
       (∀ v r c : Int, out.aff.apply v r c = g.aff.apply ((kmax : Int) - v) r c) ∧
       out.frames = ks.zipIdx.map (fun (p : Nat × Nat) => (p.2, (kmax : Int) - p.1)) := by
-  obtain ⟨k₁, hk₁, k₂, hk₂, out, hout, hb, hn, _, _, happ, hfr⟩ := seg_volume_roundtrip hg ks hks rows cols hr hc
+  obtain ⟨k₁, hk₁, k₂, hk₂, out, hout, hb, hn, _, _, happ, hfr⟩ := seg_volume_roundtrip hg ks hks chans hu rows cols hr hc
   have hh : handInt g = -1 := by
     unfold handInt
     have : ¬ (g.det = 1) := by rw [hdet]; norm_num
@@ -138,11 +142,12 @@ theorem left_handed_reads_back_mirrored {g : Geom} (hg : Admissible g) (hdet : g
 
 /-- **Omitted planes read as empty, kept planes are all there**: a slot of the returned volume holds a frame
 exactly when the input plane lying there (`src v = k₁ + h·v`) was stored. -/
-theorem omitted_planes_read_empty {g : Geom} (hg : Admissible g) (ks : List Nat) (hks : ks ≠ []) (rows cols : Int)
+theorem omitted_planes_read_empty {g : Geom} (hg : Admissible g) (ks : List Nat) (hks : ks ≠ []) (chans : List Nat)
+    (hu : framesUnique .seg (withChan (storeStack g ks) chans) = true) (rows cols : Int)
     (hr : 1 ≤ rows) (hc : 1 ≤ cols) :
-    ∃ k₁ ∈ ks, ∃ out, getVolumeStack .seg (storeStack g ks) rows cols true ({} : Request) = .ok out ∧
+    ∃ k₁ ∈ ks, ∃ out, getVolumeStack .seg (withChan (storeStack g ks) chans) rows cols true ({} : Request) = .ok out ∧
       ∀ v : Int, (∃ i, (i, v) ∈ out.frames) ↔ ∃ k ∈ ks, (k : Int) = (k₁ : Int) + handInt g * v := by
-  obtain ⟨k₁, hk₁, k₂, _, out, hout, _, _, _, _, _, hfr⟩ := seg_volume_roundtrip hg ks hks rows cols hr hc
+  obtain ⟨k₁, hk₁, k₂, _, out, hout, _, _, _, _, _, hfr⟩ := seg_volume_roundtrip hg ks hks chans hu rows cols hr hc
   refine ⟨k₁, hk₁, out, hout, ?_⟩
   intro v
   have h2 := handInt_sq g
@@ -177,8 +182,10 @@ theorem nonzero_planes_survive_omission {g : Geom} (hg : Admissible g) (nonempty
           nonempty[k]? = some true → False) ∧
       (∀ v r c : Int, out.aff.apply v r c = g.aff.apply ((k₁ : Int) + handInt g * v) r c) := by
   have hks := keptPlanes_ne_nil nonempty omitEmpty hne
+  have hu : framesUnique .seg (withChan (storeStack g (keptPlanes nonempty omitEmpty)) []) = true :=
+    framesUnique_of_nodup .seg _ rfl (planePosition_nodup hg _ (keptPlanes_nodup nonempty omitEmpty))
   obtain ⟨k₁, hk₁, k₂, _, out, hout, hb, _, _, _, happ, hfr⟩ :=
-    seg_volume_roundtrip hg (keptPlanes nonempty omitEmpty) hks rows cols hr hc
+    seg_volume_roundtrip hg (keptPlanes nonempty omitEmpty) hks [] hu rows cols hr hc
   refine ⟨k₁, keptPlanes_bound _ _ _ hk₁, out, hout, ?_, ?_, happ⟩
   · intro k hk
     have hmem := keptPlanes_contains nonempty omitEmpty k hk
@@ -216,7 +223,7 @@ stack; frame `i` goes to slot `e_i − min e`, and that slot lies exactly at the
 row and column vectors being the recorded spacing × cosines. -/
 theorem aligned_sources_any_order (k : Kind) (st : Stack) (hst : StackOK st) (base : V3) (sp : Rat) (hsp : 0 < sp)
     (es : List Int) (hes : es ≠ []) (hpos : st.pos = es.map (linePos (normal st.rowCos st.colCos) base sp))
-    (hhint : st.hint = some sp) (rows cols : Int) (hr : 1 ≤ rows) (hc : 1 ≤ cols) :
+    (hhint : st.hint = some sp) (hu : framesUnique k st = true) (rows cols : Int) (hr : 1 ≤ rows) (hc : 1 ≤ cols) :
     ∃ emin ∈ es, ∃ emax ∈ es, (∀ e ∈ es, emin ≤ e ∧ e ≤ emax) ∧ ∃ out,
       getVolumeStack k st rows cols true ({} : Request) = .ok out ∧
       out.n = emax - emin + 1 ∧ out.rows = rows ∧ out.cols = cols ∧
@@ -225,7 +232,7 @@ theorem aligned_sources_any_order (k : Kind) (st : Stack) (hst : StackOK st) (ba
         out.aff.apply (es[i] - emin) r c
           = add (add (linePos (normal st.rowCos st.colCos) base sp es[i]) (smul ((r : Rat) * st.psRow) st.colCos))
               (smul ((c : Rat) * st.psCol) st.rowCos) := by
-  obtain ⟨emin, hemin, emax, hemax, hb, hok, _⟩ := getVolumeStack_line k st hst base sp hsp es hes hpos hhint rows cols
+  obtain ⟨emin, hemin, emax, hemax, hb, hok, _⟩ := getVolumeStack_line k st hst base sp hsp es hes hpos hhint hu rows cols
   have hN : 1 ≤ emax - emin + 1 := by have := hb emax hemax; omega
   have h := hok ({} : Request) 0 _ 0 rows 0 cols (sliceSpec_default _ hN false) (sliceSpec_default rows hr false)
     (sliceSpec_default cols hc false)
@@ -270,6 +277,7 @@ theorem aligned_sources_roundtrip (rowCos colCos base : V3) (psRow psCol sp : Ra
     (hcomplete : ∀ z, emin ≤ z → z ≤ emax → z ∈ allEs) (hlt : emin < emax) (hnodup : allEs.Nodup)
     (srcHint : Option Rat) (hsrc : srcHint = none ∨ srcHint = some sp)
     (kept : List Nat) (keptEs : List Int) (hkept : kept.mapM (fun k => allEs[k]?) = some keptEs) (hne : keptEs ≠ [])
+    (hkn : keptEs.Nodup)
     (rows cols : Int) (hr : 1 ≤ rows) (hc : 1 ≤ cols) :
     ∃ st, storeAligned rowCos colCos psRow psCol srcHint (allEs.map (linePos (normal rowCos colCos) base sp)) kept = .ok st ∧
       st.hint = some sp ∧
@@ -291,18 +299,20 @@ theorem aligned_sources_roundtrip (rowCos colCos base : V3) (psRow psCol sp : Ra
       aligned_sources_any_order .seg
         { rowCos := rowCos, colCos := colCos, psRow := psRow, psCol := psCol, hint := some sp,
           pos := keptEs.map (linePos (normal rowCos colCos) base sp) }
-        ⟨hn, horth, hpr, hpc⟩ base sp hsp keptEs hne rfl rfl rows cols hr hc
+        ⟨hn, horth, hpr, hpc⟩ base sp hsp keptEs hne rfl rfl
+        (framesUnique_of_nodup .seg _ rfl (linePos_nodup _ base sp hsp hn keptEs hkn)) rows cols hr hc
     exact ⟨kmin, hkmin, kmax, hkmax, hbk, out, hout, hn', hfr, happ⟩
 
 /-- **`Image.get_volume` of a complete stack whose frames come in any order** (strict branch,
 `allow_missing_positions=False`, with or without a SpacingBetweenSlices in the image): frames at
-`base + (e·sp)·n`, the multiples filling an interval of ≥ 2 integers (repetitions allowed): frame `i` goes to slot
+`base + (e·sp)·n`, the multiples pairwise different (`Image.get_volume` refuses frames at equal positions) and
+filling an interval of ≥ 2 integers: frame `i` goes to slot
 `e_i − min e`, which lies at the frame's own position. -/
 theorem image_stack_reads_back (st : Stack) (hst : StackOK st) (base : V3) (sp : Rat) (hsp : 0 < sp)
     (es : List Int) (emin emax : Int) (hemin : emin ∈ es) (hemax : emax ∈ es) (hb : ∀ e ∈ es, emin ≤ e ∧ e ≤ emax)
     (hcomplete : ∀ z, emin ≤ z → z ≤ emax → z ∈ es) (hlt : emin < emax)
     (hpos : st.pos = es.map (linePos (normal st.rowCos st.colCos) base sp))
-    (hhint : st.hint = none ∨ st.hint = some sp) (rows cols : Int) (hr : 1 ≤ rows) (hc : 1 ≤ cols) :
+    (hhint : st.hint = none ∨ st.hint = some sp) (hnd : es.Nodup) (rows cols : Int) (hr : 1 ≤ rows) (hc : 1 ≤ cols) :
     ∃ out, getVolumeStack .image st rows cols false ({} : Request) = .ok out ∧ out.n = emax - emin + 1 ∧
       out.rows = rows ∧ out.cols = cols ∧
       out.frames = es.zipIdx.map (fun (p : Int × Nat) => (p.2, p.1 - emin)) ∧
@@ -315,7 +325,9 @@ theorem image_stack_reads_back (st : Stack) (hst : StackOK st) (base : V3) (sp :
     hcomplete hlt st.hint hhint true (Or.inl rfl)
   obtain ⟨emin', hemin', emax', hemax', hb', hok, _⟩ :=
     getVolumeStack_line_gen false .image st hst (linePos (normal st.rowCos st.colCos) base sp) sp es hes hpos
-      ⟨emin, hemin, fun e he => (hb e he).1, hvp⟩ rows cols
+      ⟨emin, hemin, fun e he => (hb e he).1, hvp⟩
+      (by unfold framesUnique; rw [hpos]; exact (allDistinct_iff_nodup _).mpr (linePos_nodup _ base sp hsp hst.unitN es hnd))
+      rows cols
   have e1 : emin' = emin := by
     have := (hb' emin hemin).1; have := (hb emin' hemin').1; omega
   have e2 : emax' = emax := by
@@ -350,7 +362,8 @@ the volume still spans `max e − min e + 1` slots, and the affine is the one th
 theorem placement_robust_to_rounding (k : Kind) (st : Stack) (hst : StackOK st) (base : V3) (sp : Rat) (hsp : 0 < sp)
     (P : Int → V3) (hP : Pert (normal st.rowCos st.colCos) base sp P) (sp' : Rat) (h1 : sp * (999 / 1000) ≤ sp')
     (h2 : sp' ≤ sp * (1001 / 1000)) (es : List Int) (hes : es ≠ []) (hspan : ∀ e ∈ es, ∀ e' ∈ es, e' - e ≤ 100)
-    (hpos : st.pos = es.map P) (hhint : st.hint = some sp') (rows cols : Int) (hr : 1 ≤ rows) (hc : 1 ≤ cols) :
+    (hpos : st.pos = es.map P) (hhint : st.hint = some sp') (hu : framesUnique k st = true) (rows cols : Int)
+    (hr : 1 ≤ rows) (hc : 1 ≤ cols) :
     ∃ emin ∈ es, ∃ emax ∈ es, (∀ e ∈ es, emin ≤ e ∧ e ≤ emax) ∧ ∃ out,
       getVolumeStack k st rows cols true ({} : Request) = .ok out ∧ out.n = emax - emin + 1 ∧
       out.frames = es.zipIdx.map (fun (p : Int × Nat) => (p.2, p.1 - emin)) ∧
@@ -358,7 +371,7 @@ theorem placement_robust_to_rounding (k : Kind) (st : Stack) (hst : StackOK st) 
   obtain ⟨emin, hemin, emax, hemax, hb, hok, _⟩ :=
     getVolumeStack_line_gen true k st hst P sp' es hes hpos
       (by rw [hhint]; exact volumePositions_robust st.rowCos st.colCos base sp hsp hst.unitN P hP sp' h1 h2 es hes hspan)
-      rows cols
+      hu rows cols
   have hN : 1 ≤ emax - emin + 1 := by have := hb emax hemax; omega
   have h := hok ({} : Request) 0 _ 0 rows 0 cols (sliceSpec_default _ hN false) (sliceSpec_default rows hr false)
     (sliceSpec_default cols hc false)
@@ -425,7 +438,8 @@ theorem stdRowColIndices_spec (rs re cs ce : Option Int) (rows cols : Int) (asId
 /-- **Clause 3 (stacked images, any stack the library accepts)**: if `get_volume` accepts a request, the
 result is the default (full) volume cut to the Python-slice meaning `[s0,e0) × [s1,e1) × [s2,e2)` of the
 request, and its affine maps index `(i, j, k)` to the full volume's position of `(s0+i, s1+j, s2+k)` — in
-particular index 0 to the position of the sub-region's first voxel.  Frames of slots `s0..e0-1` move down by `s0`. -/
+particular index 0 to the position of the sub-region's first voxel.  Frames of slots `s0..e0-1` move down by `s0`.
+Acceptance also means that the frames were pairwise distinguishable (`_do_columns_identify_unique_frames`). -/
 theorem subvolume_origin (k : Kind) (st : Stack) (rows cols : Int) (am : Bool) (rq : Request) (out : VolOut)
     (h : getVolumeStack k st rows cols am rq = .ok out) :
     ∃ full s0 e0 s1 e1 s2 e2, volumeGeometryStack st rows cols am = .ok full ∧
@@ -435,10 +449,11 @@ theorem subvolume_origin (k : Kind) (st : Stack) (rows cols : Int) (am : Bool) (
       (∀ i j k : Int, out.aff.apply i j k = full.aff.apply (s0 + i) (s1 + j) (s2 + k)) ∧
       out.aff.c0 = full.aff.c0 ∧ out.aff.c1 = full.aff.c1 ∧ out.aff.c2 = full.aff.c2 ∧
       out.n = e0 - s0 ∧ out.rows = e1 - s1 ∧ out.cols = e2 - s2 ∧ out.rowFirst = s1 ∧ out.colFirst = s2 ∧
-      (∀ i v, (i, v) ∈ out.frames ↔ ((i, v + s0) ∈ full.frames ∧ 0 ≤ v ∧ v < e0 - s0)) := by
-  obtain ⟨full, s0, e0, s1, e1, s2, e2, hf, h0, h1, h2, haff, hn, hrw, hcl, hrf, hcf, hfr⟩ :=
+      (∀ i v, (i, v) ∈ out.frames ↔ ((i, v + s0) ∈ full.frames ∧ 0 ≤ v ∧ v < e0 - s0)) ∧
+      framesUnique k st = true := by
+  obtain ⟨full, s0, e0, s1, e1, s2, e2, hf, h0, h1, h2, haff, hn, hrw, hcl, hrf, hcf, hfr, hq⟩ :=
     getVolumeStack_sub k st rows cols am rq out h
-  refine ⟨full, s0, e0, s1, e1, s2, e2, hf, h0, h1, h2, ?_, ?_, ?_, ?_, hn, hrw, hcl, hrf, hcf, hfr⟩
+  refine ⟨full, s0, e0, s1, e1, s2, e2, hf, h0, h1, h2, ?_, ?_, ?_, ?_, hn, hrw, hcl, hrf, hcf, hfr, hq⟩
   · intro i j k; rw [haff, aff_shift_apply]
   · rw [haff]; rfl
   · rw [haff]; rfl
@@ -452,13 +467,71 @@ theorem subvolume_refused (k : Kind) (st : Stack) (rows cols : Int) (am : Bool) 
     ∃ kk, getVolumeStack k st rows cols am rq = .error kk :=
   getVolumeStack_refuses k st rows cols am rq full hfull hbad
 
-/-- **Clause 2 (stacked images)**: the volume `get_volume()` returns has exactly the geometry
-`get_volume_geometry()` reports (affine, shape, frame placement). -/
-theorem volume_agrees_with_reported_geometry (k : Kind) (st : Stack) (rows cols : Int) (hr : 1 ≤ rows) (hc : 1 ≤ cols)
-    (am : Bool) (full : StackGeom) (hfull : volumeGeometryStack st rows cols am = .ok full) :
+/-- **Clause 2 (images and segmentations of two or more frames, any stack)**: whenever `get_volume()` returns a
+volume, `get_volume_geometry()` reports a geometry, and it is exactly the volume's (affine, shape, placement). -/
+theorem volume_agrees_with_reported_geometry (k : Kind) (st : Stack) (rows cols : Int) (am : Bool) (out : VolOut)
+    (h : getVolumeStack k st rows cols am ({} : Request) = .ok out) :
+    ∃ full, volumeGeometryStack st rows cols am = .ok full ∧ out.aff = full.aff ∧ out.n = full.n ∧
+      out.rows = rows ∧ out.cols = cols ∧
+      (∀ i v, (i, v) ∈ out.frames ↔ ((i, v) ∈ full.frames ∧ 0 ≤ v ∧ v < full.n)) := by
+  obtain ⟨full, s0, e0, s1, e1, s2, e2, hf, h0, h1, h2, haff, hn, hrw, hcl, _, _, hfr, _⟩ :=
+    getVolumeStack_sub k st rows cols am ({} : Request) out h
+  have hs0 : s0 = 0 ∧ e0 = full.n := by
+    unfold sliceSpec at h0; simp only at h0; split at h0 <;> simp_all
+  have hs1 : s1 = 0 ∧ e1 = rows := by
+    unfold sliceSpec at h1; simp only at h1; split at h1 <;> simp_all
+  have hs2 : s2 = 0 ∧ e2 = cols := by
+    unfold sliceSpec at h2; simp only at h2; split at h2 <;> simp_all
+  obtain ⟨rfl, rfl⟩ := hs0
+  obtain ⟨rfl, rfl⟩ := hs1
+  obtain ⟨rfl, rfl⟩ := hs2
+  refine ⟨full, hf, by rw [haff, aff_shift_zero], by omega, by omega, by omega, ?_⟩
+  intro i v
+  rw [hfr]
+  simp only [add_zero, sub_zero]
+
+/-- … and conversely: when a geometry is reported and the frames are pairwise distinguishable, the default
+`get_volume()` succeeds with that geometry.  Frames that are not distinguishable make every `get_volume` request
+fail although a geometry is reported (`duplicate_frames_refused`). -/
+theorem reported_geometry_is_the_volumes (k : Kind) (st : Stack) (rows cols : Int) (hr : 1 ≤ rows) (hc : 1 ≤ cols)
+    (am : Bool) (full : StackGeom) (hfull : volumeGeometryStack st rows cols am = .ok full)
+    (hu : framesUnique k st = true) :
     ∃ out, getVolumeStack k st rows cols am ({} : Request) = .ok out ∧ out.aff = full.aff ∧ out.n = full.n ∧
       out.rows = rows ∧ out.cols = cols ∧ out.frames = full.frames :=
-  ⟨_, getVolumeStack_default k st rows cols hr hc am full hfull, rfl, rfl, rfl, rfl, rfl⟩
+  ⟨_, getVolumeStack_default k st rows cols hr hc am full hfull hu, rfl, rfl, rfl, rfl, rfl⟩
+
+/-- frames at equal positions (images) / equal position and segment (segmentations) are refused by `get_volume` -/
+theorem duplicate_frames_refused (k : Kind) (st : Stack) (rows cols : Int) (am : Bool) (rq : Request)
+    (hd : framesUnique k st = false) : ∃ kk, getVolumeStack k st rows cols am rq = .error kk := by
+  cases hgv : getVolumeStack k st rows cols am rq with
+  | error kk => exact ⟨kk, rfl⟩
+  | ok out =>
+    obtain ⟨_, _, _, _, _, _, _, _, _, _, _, _, _, _, _, _, _, _, hq⟩ := getVolumeStack_sub k st rows cols am rq out hgv
+    rw [hd] at hq; cases hq
+
+/-- **Clause 2 for single-frame images** (their own branch of `_get_volume_geometry`, slice spacing through the
+regenerated `Gen.singleFrameSpacing`): what `get_volume` builds from the one frame is exactly the geometry
+`get_volume_geometry` reports — both take the magnitude of SpacingBetweenSlices (1 when absent) and both refuse 0. -/
+theorem single_frame_volume_agrees_with_reported_geometry (st : Stack) (p : V3) (hp : st.pos = [p]) (rows cols : Int)
+    (hr : 1 ≤ rows) (hc : 1 ≤ cols) (am : Bool) :
+    (∀ a, volumeGeometrySingle p st.rowCos st.colCos st.psRow st.psCol st.hint = .ok a →
+      getVolumeStack .image st rows cols am ({} : Request)
+        = .ok { aff := a, n := 1, frames := [(0, 0)], rowFirst := 0, colFirst := 0, rows := rows, cols := cols }) ∧
+    (∀ e, volumeGeometrySingle p st.rowCos st.colCos st.psRow st.psCol st.hint = .error e →
+      ∃ kk, getVolumeStack .image st rows cols am ({} : Request) = .error kk) := by
+  have hsg := stackedGeometry_single st p hp rows cols am
+  have hu : framesUnique .image st = true := by unfold framesUnique; rw [hp]; rfl
+  constructor
+  · intro a ha
+    rw [ha] at hsg
+    exact getVolumeStack_default .image st rows cols hr hc am _ hsg hu
+  · intro e he
+    rw [he] at hsg
+    cases hgv : getVolumeStack .image st rows cols am ({} : Request) with
+    | error kk => exact ⟨kk, rfl⟩
+    | ok out =>
+      obtain ⟨full, _, _, _, _, _, _, hf, _⟩ := getVolumeStack_sub .image st rows cols am _ out hgv
+      rw [hsg] at hf; cases hf
 
 /-- **Clause 3 (tiled images and tiled segmentations)**: an accepted request returns the reported geometry of
 the total pixel matrix translated to the position of the first requested row `a` and column `c` (what the
@@ -522,6 +595,38 @@ theorem tiled_volume_roundtrip {g : Geom} (hg : Admissible g) (R C : Int) (hR : 
   obtain ⟨out, hout, haff, hn, hr, hc⟩ := tiled_volume_agrees_with_reported_geometry .seg _ _ _ _ _ _ R C hR hC full hfull
   exact ⟨out, hout, hn, hr, hc, fun r c => by rw [haff]; exact happ r c⟩
 
+/-- **A tiled segmentation placed by the user records the user's position** — in x, y AND z (another focal plane),
+whatever else coincides with the source image: `origin_preserved` is regenerated from the constructor on every
+run; were one coordinate left out of it, the source's origin would be copied and the statement fails. -/
+theorem user_placed_tiled_origin (user src : V3) (sameOrientation sameSpacing sameTiles : Bool) :
+    recordedTiledOrigin user src sameOrientation sameSpacing sameTiles = .ok user := by
+  unfold recordedTiledOrigin originPreserved
+  simp only
+  split
+  · rename_i h
+    simp only [Bool.and_eq_true, beq_iff_eq] at h
+    obtain ⟨⟨⟨⟨⟨hx, hy⟩, hz⟩, _⟩, _⟩, _⟩ := h
+    cases user; cases src
+    simp only at hx hy hz
+    subst hx hy hz
+    rfl
+  · rfl
+
+/-- **Tiled segmentation from a SLIDE volume, through the constructor's choice of origin**: whatever the source's
+origin is and whatever else coincides with the source, what is recorded is what the volume says (`storeTiled`), so
+`tiled_volume_roundtrip` applies to it. -/
+theorem tiled_volume_records_its_own_origin (g : Geom) (src : V3) (sameOrientation sameSpacing sameTiles : Bool) :
+    storeTiledFrom g src sameOrientation sameSpacing sameTiles = .ok (storeTiled g) := by
+  unfold storeTiledFrom
+  rw [user_placed_tiled_origin]
+  rfl
+
+/-- a segmentation of a single plane records no inferred SpacingBetweenSlices (there is none in the data); a value
+carried by the source's or the user's pixel measures is kept -/
+theorem single_plane_records_no_spacing (p rowCos colCos : V3) (h : Rat) :
+    recordedHint none [p] rowCos colCos = .ok none ∧ recordedHint (some h) [p] rowCos colCos = .ok (some h) :=
+  ⟨rfl, rfl⟩
+
 /-! ## 5. Every pyramid level covers the same physical extent -/
 
 /-- **Clause 4 (regenerated `row_spacing` / `column_spacing` of `create_segmentation_pyramid`)**: for masks of
@@ -534,15 +639,14 @@ theorem pyramid_extent (pr pc : Rat) (nd0 a0 a1 a2 nd b0 b1 b2 : Int) (rs cs : R
     (maskCols nd b1 b2 : Rat) * cs = (maskCols nd0 a1 a2 : Rat) * pc :=
   pyramidSpacing_extent pr pc nd0 a0 a1 a2 nd b0 b1 b2 rs cs h hr hc
 
-/-- **Clause 4 for down-sampling factors**: for every factor `1 ≤ f ≤ min(R, C)` the level produced from a mask
-of any rank (the library builds it as `(1, rows_l, cols_l[, S])` with `(cols_l, rows_l)` = regenerated
-`output_size`) has at least one row and column and covers `R · spacing_0` by `C · spacing_0`. -/
-theorem pyramid_level_extent (pr pc f : Rat) (hf : 1 ≤ f) (R C : Int) (hR : f ≤ (R : Rat)) (hC : f ≤ (C : Rat))
-    (nd0 a0 a1 a2 : Int) (h0r : maskRows nd0 a0 a1 = R) (h0c : maskCols nd0 a1 a2 = C) (ndl : Int) (hnd : ndl ≠ 2) :
-    ∃ cl rl rs cs, pyramidLevelSize f C R = .ok (cl, rl) ∧
-      pyramidSpacing pr pc nd0 a0 a1 a2 ndl 1 rl cl = .ok (rs, cs) ∧
-      1 ≤ rl ∧ 1 ≤ cl ∧ (rl : Rat) * rs = (R : Rat) * pr ∧ (cl : Rat) * cs = (C : Rat) * pc := by
-  obtain ⟨cl, rl, hsz, hc1, _, hr1, _⟩ := pyramidLevelSize_pos f hf R C hR hC
+/-- **Clause 4 for down-sampled levels, whatever size the level gets**: a level the library builds as
+`(1, rows_l, cols_l[, S])` from a mask of any rank covers `R · spacing_0` by `C · spacing_0` for EVERY level size of at
+least one row and column — in particular for the size `int(C / f)`, `int(R / f)` that the code computes in floating
+point (which for non-dyadic factors can differ by one from the exact quotient: `int(11 / 1.1) = 10`, exact 9). -/
+theorem pyramid_level_extent (pr pc : Rat) (R C : Int) (nd0 a0 a1 a2 : Int) (h0r : maskRows nd0 a0 a1 = R)
+    (h0c : maskCols nd0 a1 a2 = C) (ndl : Int) (hnd : ndl ≠ 2) (rl cl : Int) (hrl : 1 ≤ rl) (hcl : 1 ≤ cl) :
+    ∃ rs cs, pyramidSpacing pr pc nd0 a0 a1 a2 ndl 1 rl cl = .ok (rs, cs) ∧
+      (rl : Rat) * rs = (R : Rat) * pr ∧ (cl : Rat) * cs = (C : Rat) * pc := by
   cases hsp : pyramidSpacing pr pc nd0 a0 a1 a2 ndl 1 rl cl with
   | error k => unfold pyramidSpacing at hsp; cases hsp
   | ok r =>
@@ -551,11 +655,25 @@ theorem pyramid_level_extent (pr pc f : Rat) (hf : 1 ≤ f) (R C : Int) (hR : f 
     have hmc : maskCols ndl rl cl = cl := by unfold maskCols; simp [hnd]
     have := pyramidSpacing_extent pr pc nd0 a0 a1 a2 ndl 1 rl cl rs cs hsp (by rw [hmr]; omega) (by rw [hmc]; omega)
     rw [hmr, hmc, h0r, h0c] at this
-    exact ⟨cl, rl, rs, cs, hsz, hsp, hr1, hc1, this.1, this.2⟩
+    exact ⟨rs, cs, rfl, this.1, this.2⟩
 
-/-! ## 6. The hand-written parts of the model are wired like the source (tie T on source text) -/
+/-- the level size computed over exact rationals (regenerated `output_size`) is at least 1 × 1 and at most the full
+size for every factor `1 ≤ f ≤ min(R, C)`; the float computation of the code agrees with it for dyadic factors (those
+the correspondence compares) and may differ by one otherwise — `pyramid_level_extent` does not depend on it. -/
+theorem pyramid_level_size_exact (f : Rat) (hf : 1 ≤ f) (R C : Int) (hR : f ≤ (R : Rat)) (hC : f ≤ (C : Rat)) :
+    ∃ cl rl, pyramidLevelSize f C R = .ok (cl, rl) ∧ 1 ≤ cl ∧ cl ≤ C ∧ 1 ≤ rl ∧ rl ≤ R :=
+  pyramidLevelSize_pos f hf R C hR hC
 
-/-- **What a volume records** (`storeStack`, `storeTiled` assume exactly this): row cosines are the direction of
+/-! ## 6. Source-text fingerprints of the hand-modelled wiring (change detectors, no clause content)
+
+The three theorems of this section are `decide` on string tables regenerated from the source on every run.  They
+prove nothing about positions: they make the run notice (proof stage) when the source expressions that the
+hand-written model functions named in each docstring were written FROM are edited — which affine column feeds which
+attribute, which recorded attribute feeds `from_attributes`, which orientation feeds the spacing inference.  Whether
+the model is a faithful reading of these expressions is carried by tie C (L0/L1 correspondence), not by Lean. -/
+
+set_option maxRecDepth 20000 in
+/-- **Fingerprint: what a volume records** (`storeStack`, `storeTiled` were written from these expressions): row cosines are the direction of
 affine column 2 and column cosines that of column 1 — in this order; PixelSpacing = (‖column 1‖, ‖column 2‖);
 SpacingBetweenSlices = SliceThickness = ‖column 0‖; plane `p` is placed at index `(p, 0, 0)`.  The expressions are
 read from volume.py on every run (single-assignment locals inlined). -/
@@ -564,6 +682,9 @@ theorem volume_records_its_affine :
       = some "tuple([*self._affine[:3, 2].copy().tolist(), *self._affine[:3, 1].copy().tolist()])" ∧
     wiringVolume.lookup "pixel_spacing"
       = some "(np.sqrt((self._affine[:3, 1] ** 2).sum()).item(), np.sqrt((self._affine[:3, 2] ** 2).sum()).item())" ∧
+    wiringVolume.lookup "direction_cosines.inplace"
+      = some "self._affine[:3, 1].copy() /= np.sqrt((self._affine[:3, 1].copy() ** 2).sum()) ; self._affine[:3, 2].copy() /= np.sqrt((self._affine[:3, 2].copy() ** 2).sum())" ∧
+    wiringVolume.lookup "pixel_spacing.inplace" = some "" ∧ wiringVolume.lookup "spacing_between_slices.inplace" = some "" ∧
     wiringVolume.lookup "spacing_between_slices" = some "np.sqrt((self._affine[:3, 0] ** 2).sum()).item()" ∧
     wiringVolume.lookup "get_plane_positions"
       = some "self.map_indices_to_reference(np.array([[p, 0, 0] for p in range(self.spatial_shape[0])]))" ∧
@@ -571,11 +692,11 @@ theorem volume_records_its_affine :
     wiringVolume.lookup "get_pixel_measures.spacing_between_slices" = some "self.spacing_between_slices" ∧
     wiringVolume.lookup "get_plane_orientation"
       = some "PlaneOrientationSequence(self.coordinate_system, self.direction_cosines)" := by
-  refine ⟨by decide, by decide, by decide, by decide, by decide, by decide, by decide⟩
+  refine ⟨by decide, by decide, by decide, by decide, by decide, by decide, by decide, by decide, by decide, by decide⟩
 
 set_option maxRecDepth 20000 in
-/-- **How recorded attributes become a geometry** (`fromAttributes`, `stackedGeometry`, `volumeGeometryTiled`
-assume exactly this): `from_attributes` passes position / orientation / spacings through with the volume index
+/-- **Fingerprint: how recorded attributes become a geometry** (`fromAttributes`, `stackedGeometry`,
+`volumeGeometryTiled`, `volumeGeometrySingle` were written from these expressions): `from_attributes` passes position / orientation / spacings through with the volume index
 convention, slices first, shape (frames, rows, columns); a stack takes the position of the frame at volume
 position 0 from the very list it ordered, the recorded SpacingBetweenSlices as hint, the spacing returned by
 `get_volume_positions`, `max(volume_positions) + 1` frames and Rows × Columns; a tiled image takes the
@@ -610,32 +731,15 @@ theorem geometry_is_built_from_the_recorded_attributes :
      wiringImage.lookup "single.image_orientation" = some "self.ImageOrientationPatient" ∧
      wiringImage.lookup "single.pixel_spacing" = some "self.PixelSpacing" ∧
      wiringImage.lookup "single.rows" = some "self.Rows" ∧ wiringImage.lookup "single.columns" = some "self.Columns" ∧
-     wiringImage.lookup "single.spacing_between_slices" = some "self.get('SpacingBetweenSlices', 1.0)") := by
+     wiringImage.lookup "single.spacing_between_slices" = some "spacing_between_slices") := by
   refine ⟨⟨by decide, by decide, by decide, by decide, by decide, by decide, by decide⟩,
     ⟨by decide, by decide, by decide, by decide, by decide, by decide, by decide, by decide, by decide, by decide, by decide⟩,
     ⟨by decide, by decide, by decide, by decide, by decide, by decide⟩,
     ⟨by decide, by decide, by decide, by decide, by decide, by decide⟩⟩
 
-/-- **A tiled segmentation placed by the user records the user's position** — in x, y AND z (another focal plane),
-whatever else coincides with the source image: `origin_preserved` is regenerated from the constructor on every
-run; were one coordinate left out of it, the source's origin would be copied and the statement fails. -/
-theorem user_placed_tiled_origin (user src : V3) (sameOrientation sameSpacing sameTiles : Bool) :
-    recordedTiledOrigin user src sameOrientation sameSpacing sameTiles = .ok user := by
-  unfold recordedTiledOrigin originPreserved
-  simp only
-  split
-  · rename_i h
-    simp only [Bool.and_eq_true, beq_iff_eq] at h
-    obtain ⟨⟨⟨⟨⟨hx, hy⟩, hz⟩, _⟩, _⟩, _⟩ := h
-    cases user; cases src
-    simp only at hx hy hz
-    subst hx hy hz
-    rfl
-  · rfl
-
 set_option maxRecDepth 20000 in
-/-- **What a segmentation records of the placement it is given** (`storeStack`, `storeAligned`, `recordedHint`,
-`storeTiled`, `recordedTiledOrigin` assume exactly this; source text of `Segmentation.__init__`, block-local
+/-- **Fingerprint: what a segmentation records of the placement it is given** (`storeStack`, `storeAligned`,
+`recordedHint`, `storeTiled`, `recordedTiledOrigin` were written from these expressions; source text of `Segmentation.__init__`, block-local
 locals inlined): a volume contributes its own plane positions / orientation / measures; a missing
 SpacingBetweenSlices is inferred from ALL plane positions with the SEGMENTATION'S OWN orientation and recorded
 when one is found; a user-placed total pixel matrix takes X, Y and Z (default 0) from the single plane position,
@@ -645,7 +749,8 @@ theorem segmentation_records_the_placement :
     (wiringSeg.lookup "from_volume.plane_positions" = some "pixel_array.get_plane_positions()" ∧
      wiringSeg.lookup "from_volume.plane_orientation" = some "pixel_array.get_plane_orientation()" ∧
      wiringSeg.lookup "from_volume.pixel_measures" = some "pixel_array.get_pixel_measures()") ∧
-    (wiringSeg.lookup "spacing_inference.only_if" = some "'SpacingBetweenSlices' not in pixel_measures[0]" ∧
+    (wiringSeg.lookup "spacing_inference.only_if"
+       = some "'SpacingBetweenSlices' not in pixel_measures[0] and len(plane_position_values) > 1" ∧
      wiringSeg.lookup "spacing_inference.image_positions" = some "plane_position_values[:, 0, :]" ∧
      wiringSeg.lookup "spacing_inference.image_orientation" = some "plane_orientation[0].ImageOrientationPatient" ∧
      wiringSeg.lookup "spacing_inference.recorded" = some "format_number_as_ds(slice_spacing)" ∧
@@ -701,6 +806,14 @@ example (n base : V3) (sp : Rat) (hsp : 0 < sp) :
   refine ⟨fun e => ⟨⟨sp / 2000, -(sp / 2000), 0⟩, rfl, ?_⟩⟩
   simp only [dot]
   nlinarith [mul_pos hsp hsp]
+
+/-- the uniqueness hypothesis holds for pairwise different kept planes (label map / one segment) … -/
+example : framesUnique .seg (withChan (storeStack gLeft [4, 1, 2]) []) = true :=
+  framesUnique_of_nodup .seg _ rfl (planePosition_nodup
+    (by refine ⟨⟨?_, ?_, ?_, ?_, ?_, ?_⟩, ?_, ?_, ?_⟩ <;> norm_num [gLeft, dot, cross]) _ (by decide))
+/-- … and `allDistinct` separates equal planes by their segment -/
+example : allDistinct ([(4, 1), (1, 1), (1, 2)] : List (Nat × Nat)) = true ∧
+    allDistinct ([(4, 1), (1, 2), (1, 2)] : List (Nat × Nat)) = false := by decide
 
 /-- concrete requests: accepted ones mean the Python slice, the two repaired defects stay repaired -/
 example : stdSliceIndices (some 1) (some 3) 5 false = .ok (0, 2) := by decide
